@@ -723,6 +723,27 @@ def m_vec_truncate(it, a, ty, callee):
     return UNIT
 
 
+def m_slice_reverse(it, a, ty, callee):
+    p = a[0]
+    v = it.load(p)
+    it.store(p, Seq(tuple(reversed(v.fields)), 'slice' if p.win is not None else v.kind))
+    return UNIT
+
+
+def m_swap_remove(it, a, ty, callee):
+    p, i = a
+    v = it.load(p)
+    n = len(v.fields)
+    it.require(it.binop('Lt', i, usize(n)), 'panic', 'Vec::swap_remove index out of bounds')
+    k = i.v if i.conc else it.choose(n, [i.z() == z3.BitVecVal(j, 64) for j in range(n)])
+    f = list(v.fields)
+    out = f[k]
+    f[k] = f[-1]
+    f.pop()
+    it.store(p, Seq(f, v.kind))
+    return out
+
+
 def m_vec_clear(it, a, ty, callee):
     v = it.load(a[0])
     it.store(a[0], Seq((), v.kind))
@@ -733,6 +754,7 @@ def install(it):
     A = it.add_model
     _IT[0] = it
     A(r'std::(vec::Vec|collections::VecDeque)::<.*>::clear', m_vec_clear)
+    A(r'(?:core|std)::slice::<impl \[.*\]>::reverse', m_slice_reverse)
     A(r'std::(vec::Vec|collections::VecDeque)::<.*>::retain(_mut)?::<.*>', m_retain)
     A(r'std::(vec::Vec|collections::VecDeque)::<.*>::truncate', m_vec_truncate)
     A(r'(?:core|std)::slice::<impl \[.*\]>::sort_by_key::<.*>', m_sort_by_key)
@@ -744,6 +766,7 @@ def install(it):
     A(r'<std::vec::Vec<.*> as std::iter::Extend<.*>>::extend::<.*>', m_vec_extend)
     A(r'<.* as std::iter::Iterator>::position::<.*>', m_position)
     A(r'std::vec::Vec::<.*>::remove', m_vec_remove)
+    A(r'std::vec::Vec::<.*>::swap_remove', m_swap_remove)
     A(r'std::vec::Vec::<.*>::insert', m_vec_insert)
     A(r'(?:\w+::)*verif_rt::Nondet::blob', m_blob)
     A(r'std::vec::Vec::<u8>::len', m_vec_len_any)
